@@ -307,20 +307,20 @@ PROPS["C16"] = {
 }
 
 PROPS["C06"] = {
-    "modules": ["Gmsm.Props.C06"],
+    "modules": ["Gmsm.Props.C06", "Gmsm.Props.C06Keys"],
     "theorems": [
         "Props.C06.tables_ok", "Props.C06.pick_sound", "Props.C06.pick_complete", "Props.C06.policy_table",
         "Props.C06.agreed_is_mutual", "Props.C06.gm_completes", "Props.C06.forbidden_fails", "Props.C06.no_cross_protocol",
-        "Props.C06.auto_dispatch",
+        "Props.C06.auto_dispatch", "Props.C06.gm_premaster_agree", "Props.C06.gm_keys_agree",
     ],
     "gen_items": ["gmtls."],
     "gen_obligations": ["Gen.TLS.cipherSuites / gmCipherSuites / topCipherSuites / gmDefaultSuites / version and limit constants regenerated from gmtls/cipher_suites.go, gm_support.go, common.go; tables_ok re-proved on every run"],
     "level": "proof",
-    "claim": "A Lean model of what the two ends agree on (mode dispatch incl. the auto-switch by ClientHello version for all 65536 values, mutualVersion, ClientHello suite lists, the server's preference/supported pick over the regenerated suite tables with the certificate-kind and TLS-1.2-only filters, the client-certificate policy table) with theorems: whatever completes uses a suite both ends list and the server can serve, the protocol version is GMSSL 1.1 exactly for a GMSSL client on a GMSSL-capable server (never across protocols), the client-certificate count follows the policy table (policy_table is an iff over all policies x certificate kinds), forbidden combinations fail, a GMSSL pair with a mutual servable suite and a permitted certificate situation completes. The model's verdict (ok version suite client-certs / fail) is compared with real connections on every run: server mode {GMSSL-only, auto-switch, TLS} x client {GMSSL, gmtls TLS 1.0/1.1/1.2, crypto/tls 1.0/1.1/1.2} and gmtls clients against a crypto/tls server x suite lists (default, single, ordered, ECDHE-first, mismatching) x PreferServerCipherSuites x ClientAuth 0..4 x client certificate {none, trusted, other CA} x certificates static / through GetCertificate+GetKECertificate x tickets on/off; intrinsic oracles: both ends complete or both fail (no panic, no hang), same version, suite, exported keying material, the client sees exactly the configured server certificates, and random payloads of 0..40000 bytes (200 KiB in the thorough tier) written concurrently in both directions in fragments of 0..70000 bytes arrive intact. Independent decoding: wire captures plus KeyLogWriter output of real GMSSL connections (both suites, with and without client authentication) are decoded by the Lean implementation of GM/T 0024 — SM3 PRF and key block (Spec.TLSPRF), record layer (Model.Record, C07) — which must reproduce both Finished verify_data values from the plaintext transcript and decrypt every application record to the bytes the applications wrote.",
+    "claim": "A Lean model of what the two ends agree on (mode dispatch incl. the auto-switch by ClientHello version for all 65536 values, mutualVersion, ClientHello suite lists, the server's preference/supported pick over the regenerated suite tables with the certificate-kind and TLS-1.2-only filters, the client-certificate policy table) with theorems: whatever completes uses a suite both ends list and the server can serve, the protocol version is GMSSL 1.1 exactly for a GMSSL client on a GMSSL-capable server (never across protocols), the client-certificate count follows the policy table (policy_table is an iff over all policies x certificate kinds), forbidden combinations fail, a GMSSL pair with a mutual servable suite and a permitted certificate situation completes. The model's verdict (ok version suite client-certs / fail) is compared with real connections on every run: server mode {GMSSL-only, auto-switch, TLS} x client {GMSSL, gmtls TLS 1.0/1.1/1.2, crypto/tls 1.0/1.1/1.2} and gmtls clients against a crypto/tls server x suite lists (default, single, ordered, ECDHE-first, mismatching) x PreferServerCipherSuites x ClientAuth 0..4 x client certificate {none, trusted, other CA} x certificates static / through GetCertificate+GetKECertificate x tickets on/off; intrinsic oracles: both ends complete or both fail (no panic, no hang), same version, suite, exported keying material, the client sees exactly the configured server certificates, and random payloads of 0..40000 bytes (200 KiB in the thorough tier) written concurrently in both directions in fragments of 0..70000 bytes arrive intact. Independent decoding: wire captures plus KeyLogWriter output of real GMSSL connections (both suites, with and without client authentication) are decoded by the Lean implementation of GM/T 0024 — SM3 PRF and key block (Spec.TLSPRF), record layer (Model.Record, C07) — which must reproduce both Finished verify_data values from the plaintext transcript and decrypt every application record to the bytes the applications wrote. Added (C06Keys): gm_premaster_agree / gm_keys_agree — with the SM2 spec proved to be a group action, the server's SM2 decryption of the ClientKeyExchange returns the client's pre-master secret for every key and nonce in range, hence both ends derive the same master secret and key block.",
     "note": "Partial: the theorems are about the negotiation model; key agreement (SM2 encryption of the pre-master secret, ECDHE/RSA for TLS), certificate verification (C08/C10) and the stdlib TLS 1.0-1.2 record protection are exercised, not modelled. For crypto/tls peers only single-suite lists are used because its preference order is its own. Independent decoding covers GMSSL; TLS 1.0-1.2 interoperability is decided by completing handshakes and exchanging data with the Go standard library.",
     "trusted_base": ["Model.Negotiate tied by the hs op; extract/tls.go table extraction", "Spec.TLSPRF transcribes GM/T 0024 6.5 / RFC 5246 5 (validated by decoding real connections: Finished values and records)", "crypto/tls (stdlib) as the reference TLS implementation"],
     "assumptions": [],
-    "not_proved": ["record fragmentation/reassembly of application data as a theorem (C07 has the record-layer theorems)", "key agreement correctness (both ends derive the same pre-master secret) as a theorem"],
+    "not_proved": ["record fragmentation/reassembly of application data as a theorem (C07 has the record-layer theorems)", "key agreement of the TLS suites (RSA / ECDHE, stdlib crypto)"],
 }
 
 PROPS["C15"] = {
@@ -338,11 +338,11 @@ PROPS["C15"] = {
         "Props.C15.empty_records_unbounded",
         "Props.C15.dispatch_auto", "Props.C15.dispatch_tlsOnly", "Props.C15.dispatch_gmOnly", "Props.C15.dispatch_reject_low",
         "Props.C15.dispatch_high", "Props.C15.dispatch_version_has_prf", "Props.C15.auto_gm_iff",
-        "Props.C15.hello_refused", "Props.C15.hello_suite_offered",
+        "Props.C15.hello_refused", "Props.C15.hello_suite_offered", "Props.C15.clientVersionOk_iff", "Props.C15.client_accepts_hello_iff", "Props.C15.client_rejects_hello", "Props.C15.client_never_accepts_unoffered",
     ],
     "gen_items": [],
     "level": "proof",
-    "claim": "Model.Handshake is the message-acceptance automaton of the gmtls endpoints as the code is: the record-layer rules of readRecord/readHandshake (record type against phase, ChangeCipherSpec only when asked for and not while part of a message is buffered, oversized records and messages, at most 5 consecutive warning alerts, close_notify/fatal alert/EOF, the GMSSL client's missing haveVers) and the per-state type assertions of the GMSSL and TLS server and client (full, client-certificate, ticket and resumption variants, NPN, the TLS client's optional CertificateStatus/ServerKeyExchange/CertificateRequest), over an alphabet of 33 events. Proved for every configuration and EVERY finite event sequence: if the handshake completes with the last event, the sequence with tolerated events erased is one of the flights expected c, which are written out per role (done_only_expected, run_done_iff, expected_*); once the stream has ended no state keeps waiting (no_wait_after_eof, eof_is_error); in every state every event other than the at most two (TLS client: four) listed types and the tolerated ones is an error, with its alert (unexpected_is_error, unexpected_cases, unexpected_cases_ccs, expected_is_taken); every step errors, completes, moves to a later phase or is a tolerated event, the sixth consecutive warning alert is fatal, and a still-running endpoint has read at most 6*8+5 events other than empty records and record-boundary artefacts (progress, six_warnings_fatal, bounded_stall, stall_bound). Version dispatch for all client_version values at once by omega: below 0x0101 and in (0x0101,0x0300) every mode rejects; the auto-switch server enters GMSSL code iff v=0x0101, TLS code iff 0x0300<=v<=0x0303 at that version, and rejects everything else including all v>0x0303; TLS-only and GMSSL-only servers cap at 0x0303; no version without a PRF is ever negotiated (dispatch_*, dispatch_version_has_prf, auto_gm_iff); a hello with unsupported version, compression or suites is refused before any ServerHello and a ServerHello names an offered, servable suite (hello_refused, hello_suite_offered). Correspondence on every run: a man in the middle between the real endpoint under test and a genuine gmtls peer applies edit scripts to the stream towards the endpoint (drop, dup, swap, retype, insert any handshake type or record-level event incl. CCS, application data, alerts, empty/oversized/unknown/wrong-version records, truncation, length-field perturbation, split/join/trailing bytes, EOF before every item, EOF of the endpoint's own stream after every record), for GMSSL/TLS/auto-switch servers and GMSSL/TLS clients in full, client-cert, ticket and resumed handshakes, plus ClientHello version sweeps 0x0000..0x0400, suite lists of known and unknown ids and compression rewrites in all three server modes; Handshake's result, panics (both ends), waiting after end of stream (decided by exact deadlock detection, not time) and the alert written are compared line by line with the model (quick 1510 ops, thorough about 31 800: all single edits at every position, all pairs of order-level edits for the GMSSL roles, seeded multi-edit scripts).",
+    "claim": "Model.Handshake is the message-acceptance automaton of the gmtls endpoints as the code is: the record-layer rules of readRecord/readHandshake (record type against phase, ChangeCipherSpec only when asked for and not while part of a message is buffered, oversized records and messages, at most 5 consecutive warning alerts, close_notify/fatal alert/EOF, the GMSSL client's missing haveVers) and the per-state type assertions of the GMSSL and TLS server and client (full, client-certificate, ticket and resumption variants, NPN, the TLS client's optional CertificateStatus/ServerKeyExchange/CertificateRequest), over an alphabet of 33 events. Proved for every configuration and EVERY finite event sequence: if the handshake completes with the last event, the sequence with tolerated events erased is one of the flights expected c, which are written out per role (done_only_expected, run_done_iff, expected_*); once the stream has ended no state keeps waiting (no_wait_after_eof, eof_is_error); in every state every event other than the at most two (TLS client: four) listed types and the tolerated ones is an error, with its alert (unexpected_is_error, unexpected_cases, unexpected_cases_ccs, expected_is_taken); every step errors, completes, moves to a later phase or is a tolerated event, the sixth consecutive warning alert is fatal, and a still-running endpoint has read at most 6*8+5 events other than empty records and record-boundary artefacts (progress, six_warnings_fatal, bounded_stall, stall_bound). Version dispatch for all client_version values at once by omega: below 0x0101 and in (0x0101,0x0300) every mode rejects; the auto-switch server enters GMSSL code iff v=0x0101, TLS code iff 0x0300<=v<=0x0303 at that version, and rejects everything else including all v>0x0303; TLS-only and GMSSL-only servers cap at 0x0303; no version without a PRF is ever negotiated (dispatch_*, dispatch_version_has_prf, auto_gm_iff); a hello with unsupported version, compression or suites is refused before any ServerHello and a ServerHello names an offered, servable suite (hello_refused, hello_suite_offered). Correspondence on every run: a man in the middle between the real endpoint under test and a genuine gmtls peer applies edit scripts to the stream towards the endpoint (drop, dup, swap, retype, insert any handshake type or record-level event incl. CCS, application data, alerts, empty/oversized/unknown/wrong-version records, truncation, length-field perturbation, split/join/trailing bytes, EOF before every item, EOF of the endpoint's own stream after every record), for GMSSL/TLS/auto-switch servers and GMSSL/TLS clients in full, client-cert, ticket and resumed handshakes, plus ClientHello version sweeps 0x0000..0x0400, suite lists of known and unknown ids and compression rewrites in all three server modes; Handshake's result, panics (both ends), waiting after end of stream (decided by exact deadlock detection, not time) and the alert written are compared line by line with the model (quick 1510 ops, thorough about 31 800: all single edits at every position, all pairs of order-level edits for the GMSSL roles, seeded multi-edit scripts). Added: the client's check of a ServerHello (version, suite in offered and known, null compression) is characterised outright (client_accepts_hello_iff, client_never_accepts_unoffered) and compared with the real client by the shmod op (man-in-the-middle rewrites of the genuine ServerHello).",
     "note": "Partial: message contents are not modelled; a message of the expected type is taken to carry what the genuine peer wrote. The two content outcomes the state machine depends on are explicit events: malformed (body fails to unmarshal) and finishedBad (verify_data mismatch). The driver carries the abstract rule 'an edit that changes the bytes E hashes makes the transcripts differ, so the peer rejects E's answer / E's Finished check fails'; for trunc/len edits only done/error is compared (whether the parser notices is C18's subject), for all other edits the alert code is compared too (printed 'enc' once the endpoint writes under its new keys). A protected record cannot be forged by the man in the middle, so events after ChangeCipherSpec are limited to the genuine Finished and records that fail decryption. NPN and OCSP-status branches of the automaton are proved but not exercised (two gmtls peers never negotiate them). Certificate policy outcomes (empty certificate under Require*) are content-level and not in the automaton. The code does not bound empty handshake records (empty_records_unbounded) and a TLS-only/GMSSL-only server lets 0x0101 resp. >=0x0300 through mutualVersion; both are modelled as they are and listed in harness/c15_findings.txt.",
     "trusted_base": ["Model.Handshake tied by the hsseq/hsflight/hsout/chmod ops (exact line equality incl. alert code) in harness/c15.go; the script->event translation Driver/Handshake.lean (streamOf, cipherPass, taints)", "harness deadlock detector (qWorld: all readers blocked on empty pipes) and the intrinsic oracles panic / hang / completed-on-misbehaviour", "harness/tls.go PKI and config builders; the genuine gmtls peer", "Go runtime recover()"],
     "assumptions": ["messages of the expected type carry what an honest peer sends (contents outside the model)", "transcripts that differ never produce a matching Finished (collision resistance of SM3/SHA-256 and the PRF) — used only in the driver's translation, stated there", "default Config version limits (MinVersion/MaxVersion unset)"],
